@@ -150,6 +150,13 @@ def os_level_states(ck, exe, env, cases):
     if not shutil.which("strace"):
         ck.cov["os_level_runs"] = "skipped (no strace)"
         return
+    try:        # tracing may be forbidden where the check runs (ptrace restrictions): then this part is skipped, not failed
+        if subprocess.run(["strace", "-f", "-o", os.devnull, "true"], capture_output=True, timeout=30).returncode != 0:
+            ck.cov["os_level_runs"] = "skipped (strace cannot trace here)"
+            return
+    except Exception:
+        ck.cov["os_level_runs"] = "skipped (strace cannot trace here)"
+        return
     big = ck.tier == "thorough"
     r = ck.rng
     picks = [c for c in cases if c.n > 0][: 10 if big else 3]
@@ -174,6 +181,10 @@ def os_level_states(ck, exe, env, cases):
             ck.cov["os_level_runs"] = "skipped (strace failed: %s)" % str(ex)[:60]
             return
         if "x OK" not in p.stdout or not os.path.exists(pout):
+            p2 = subprocess.run([exe], input=line, capture_output=True, text=True, timeout=120, env=e)
+            if "x OK" in p2.stdout:      # fine without the tracer: a tracing problem, not the program's
+                ck.cov.setdefault("os_level_unreconstructed", []).append("announced=%s: the traced run failed (%s) but the untraced run succeeded" % (ann, p.stdout[-60:].strip()))
+                continue
             ck.violation("encryption to a real file did not report success (announced size %s)" % ann, {"class": None, "case": c.line()[:2000], "announced_size": ann, "driver_output": p.stdout[-200:], "driver_flags": ck.impl_flags})
             continue
         final = open(pout, "rb").read()
